@@ -97,7 +97,9 @@ Lemma checkEvasionsT_normal : forall w pos,
   let eoe := N.lor (N.land (colorBB pos (negb w)) vt) (epMaskOf pos) in
   let l := addPawnMovesByMask w l (N.land (N.land (fwd w pawns (if w then 7 else 9)) maskAToGFiles) eoe) (delta w (if w then 7 else 9)) true in
   addPawnMovesByMask w l (N.land (N.land (fwd w pawns (if w then 9 else 7)) maskBToHFiles) eoe) (delta w (if w then 9 else 7)) true.
-Proof. intros. destruct w; reflexivity. Qed.
+Proof.
+  intros. destruct w; cbv beta iota zeta delta [checkEvasionsT validTargetsOf kingThreatsOf fwd delta myPiece negb]; reflexivity.
+Qed.
 
 Section Evasions.
 Variable p : position.
@@ -194,6 +196,14 @@ Theorem evasions_sub : forall m, In m (checkEvasions p) -> In m (pseudoLegalMove
 Proof.
   intros m H. apply evasions_iff in H. rewrite pseudo_list, !in_app_iff.
   destruct H as [[H _]|[[H _]|[[H _]|[H|[[H _]|[[H _]|[[H _]|[[H _]|[H _]]]]]]]]];
-    solve [repeat first [left; assumption | right]; assumption].
+    [ left; exact H
+    | right; left; exact H
+    | right; right; left; exact H
+    | right; right; right; left; exact H
+    | right; right; right; right; right; left; exact H
+    | right; right; right; right; right; right; left; exact H
+    | right; right; right; right; right; right; right; left; exact H
+    | right; right; right; right; right; right; right; right; left; exact H
+    | right; right; right; right; right; right; right; right; right; exact H ].
 Qed.
 End Evasions.
